@@ -73,6 +73,29 @@ def rand_bytes(rng, n):
     return [rng.randrange(256) for _ in range(n)]
 
 
+def rand_ip(rng, n):
+    """addresses incl. the special forms an implementation might treat differently"""
+    if n == 4:
+        r = rng.random()
+        if r < 0.6:
+            return rand_bytes(rng, 4)
+        return list(rng.choice([[0, 0, 0, 0], [255] * 4, [127, 0, 0, 1], [10, 0, 0, 1], [224, 0, 0, 1], [169, 254, 1, 1], [192, 168, 0, 1]]))
+    r = rng.random()
+    if r < 0.4:
+        return rand_bytes(rng, 16)
+    v4 = rand_bytes(rng, 4)
+    return list(rng.choice([
+        [0] * 10 + [255, 255] + v4,            # IPv4-mapped  ::ffff:a.b.c.d
+        [0] * 12 + v4,                         # IPv4-compatible ::a.b.c.d
+        [0] * 16, [0] * 15 + [1],              # unspecified, loopback
+        [0xfe, 0x80] + [0] * 6 + rand_bytes(rng, 8),   # link local
+        [0xff, 2] + [0] * 13 + [1],            # multicast
+        [0, 0x64, 0xff, 0x9b] + [0] * 8 + v4,  # NAT64
+        [0x20, 1, 0xd, 0xb8] + rand_bytes(rng, 12),
+        [0] * 10 + [255, 255, 127, 0, 0, 1],
+    ]))
+
+
 def rand_value_raw(rng, depth=0):
     """a random well-formed RLP item (string or nested list)"""
     r = rng.random()
@@ -99,7 +122,7 @@ def rand_seq(rng):
     return s
 
 
-CUSTOM_KEYS = ["", "a", "b", "eth2", "attnets", "client", "zz", "k", "opstack", "quic", "\xff", "secp256k0", "idx", "tcp5", "udp7"]
+CUSTOM_KEYS = ["", "a", "b", "eth2", "attnets", "client", "client", "zz", "k", "opstack", "quic", "\xff", "secp256k0", "idx", "tcp5", "udp7"]
 
 
 def rand_custom_key(rng):
@@ -114,7 +137,7 @@ def port_raw(rng):
 
 
 def client_raw(rng):
-    n = rng.choice([2, 3])
+    n = rng.choice([2, 3, 2, 3, 0, 1, 4])
     return enc_list([enc_str(B(rng.choice(["Nethermind", "geth", "x", "", "lighthouse-v5.1.3"]))) for _ in range(n)])
 
 
@@ -125,9 +148,9 @@ def rand_pairs(rng, signer, extra_reserved=True, max_custom=3, budget=150):
     d[tuple(B(pk_key(signer)))] = enc_str(KEYS[signer]["pk"])
     if extra_reserved:
         if rng.random() < 0.6:
-            d[tuple(B("ip"))] = enc_str(rand_bytes(rng, 4))
+            d[tuple(B("ip"))] = enc_str(rand_ip(rng, 4))
         if rng.random() < 0.3:
-            d[tuple(B("ip6"))] = enc_str(rand_bytes(rng, 16))
+            d[tuple(B("ip6"))] = enc_str(rand_ip(rng, 16))
         for k in PORT_KEYS:
             if rng.random() < 0.4:
                 d[tuple(B(k))] = port_raw(rng)
@@ -204,7 +227,7 @@ def gen_auth(rng, n_records, sweep_stride=1, kts=KT_ALL):
     sid = Sid("auth")
     out = []
     for r in range(n_records):
-        rec = rand_record(rng)
+        rec = rand_record(rng, scheme="ed" if r % 3 == 2 else "secp")     # both schemes in every run
         other = rand_record(rng, signer=rec["by"])
         base = recspec(rec)
         steps = [{"op": "decode", "kts": kts, "input": base, "tag": "valid"}]
@@ -242,7 +265,7 @@ def gen_auth(rng, n_records, sweep_stride=1, kts=KT_ALL):
         p4 = [[k, (enc_str(KEYS[wrong[0]]["pk"]) if bytes(k) == pk_key(rec["by"]).encode() else v)] for k, v in rec["pairs"]]
         tam.append(("pk_swapped", {"rec": {"seq": rec["seq"], "pairs": p4,
                                            "sig": {"by": rec["by"], "over": items_of(rec)}}}))
-        for n in [0, 1, 32, 63, 65, 96]:
+        for n in [0, 1, 32, 63, 65, 66, 96, 128]:
             tam.append(("siglen_%d" % n, recspec(rec, sig={"len": n})))
         tam.append(("sig_as_list", recspec(rec, sig={"as": "l"})))
         if sch == "secp":
@@ -347,6 +370,13 @@ def struct_mutations(rng, rec):
         for tag, v in [("pk_31_bytes", enc_str(KEYS[by]["pk"][:31])), ("pk_33_bytes", enc_str(KEYS[by]["pk"] + [0])),
                        ("pk_empty", enc_str([])), ("pk_list", enc_list([enc_str(KEYS[by]["pk"])]))]:
             out.append((tag, mk(pk_with(v))))
+    # the OTHER scheme's public-key key with an invalid / a valid foreign key next to the signer's own (C11)
+    okey = "ed25519" if sch == "secp" else "secp256k1"
+    for tag, v in [("other_scheme_key_junk", enc_str([2] + [255] * 32)), ("other_scheme_key_empty", enc_str([])),
+                   ("other_scheme_key_valid", enc_str(KEYS["e1" if sch == "secp" else "k2"]["pk"])),
+                   ("other_scheme_key_list", enc_list([enc_str([1])]))]:
+        ps = sorted([p for p in pairs if p[0] != B(okey)] + [[B(okey), v]], key=lambda p: bytes(p[0]))
+        out.append((tag, mk(with_pairs(ps))))
     # ill-typed reserved values (added or replaced)
     def with_kv(k, v):
         ps = [p for p in pairs if p[0] != B(k)] + [[B(k), v]]
@@ -559,7 +589,7 @@ def rand_typed(rng):
         return {"ty": "list", "v": [rand_bytes(rng, rng.choice([0, 1, 2, 5])) for _ in range(rng.randrange(0, 4))]}
     if r < 0.9:
         return {"ty": "str", "v": B(rng.choice(["", "a", "hello", "v4", "Nethermind"]))}
-    return rng.choice([{"ty": "ip4", "v": rand_bytes(rng, 4)}, {"ty": "ip6", "v": rand_bytes(rng, 16)}])
+    return rng.choice([{"ty": "ip4", "v": rand_ip(rng, 4)}, {"ty": "ip6", "v": rand_ip(rng, 16)}])
 
 
 def reserved_typed(rng, key):
@@ -580,9 +610,12 @@ def reserved_typed(rng, key):
     return {"ty": "bytes", "v": rand_bytes(rng, rng.choice([0, 32, 33]))}
 
 
-def rand_call(rng, kt, own, others, hard=True):
-    """one random mutator call. own: the record's current signer name; others: other signers of the same scheme"""
+def rand_call(rng, kt, own, others, hard=True, cross=()):
+    """one random mutator call. own: the record's current signer name; others: other signers of the same scheme;
+    cross: signers of the other scheme (CombinedKey only) -- such updates are outside C05 but inside C06 when they fail"""
     signer = own if (rng.random() < 0.85 or not others) else rng.choice(others)
+    if cross and rng.random() < 0.08:
+        signer = rng.choice(list(cross))
     r = rng.random()
     c = {"op": "call", "h": "r", "signer": signer}
     fam = rng.choice(["set_seq", "insert", "insert", "insert_raw", "insert_raw", "typed_set", "typed_set", "remove_typed", "client",
@@ -600,6 +633,9 @@ def rand_call(rng, kt, own, others, hard=True):
             k = B(rng.choice(RESERVED))
         else:
             k = rand_custom_key(rng)
+        if bytes(k) == b"client" and rng.random() < 0.8:
+            c.update(m="insert_raw_rlp", args={"key": k, "raw": client_raw(rng) if rng.random() < 0.8 else enc_list([enc_list([]), enc_str(B("x"))])})
+            return c, signer
         rr = rng.random()
         if rr < 0.5:
             raw = rand_value_raw(rng)
@@ -612,7 +648,7 @@ def rand_call(rng, kt, own, others, hard=True):
     elif fam == "typed_set":
         m = rng.choice(["set_ip", "set_ip", "set_udp4", "set_udp6", "set_tcp4", "set_tcp6"])
         if m == "set_ip":
-            c.update(m=m, args={"ip": rand_bytes(rng, rng.choice([4, 16]))})
+            c.update(m=m, args={"ip": rand_ip(rng, rng.choice([4, 16]))})
         else:
             c.update(m=m, args={"port": rng.choice([0, 1, 80, 127, 128, 255, 256, 30303, 65535, rng.randrange(65536)])})
     elif fam == "remove_typed":
@@ -623,7 +659,7 @@ def rand_call(rng, kt, own, others, hard=True):
                                             "build": rng.choice([[], [B("7d04d5a")], [B("")]])})
     elif fam == "socket":
         c.update(m=rng.choice(["set_udp_socket", "set_tcp_socket"]),
-                 args={"ip": rand_bytes(rng, rng.choice([4, 16])), "port": rng.choice([0, 1, 255, 256, 65535, rng.randrange(65536)])})
+                 args={"ip": rand_ip(rng, rng.choice([4, 16])), "port": rng.choice([0, 1, 255, 256, 65535, rng.randrange(65536)])})
     elif fam == "remove_socket":
         c.update(m=rng.choice(["remove_udp_socket", "remove_udp6_socket", "remove_tcp_socket", "remove_tcp6_socket"]), args={})
     elif fam == "remove_key":
@@ -642,7 +678,8 @@ def rand_call(rng, kt, own, others, hard=True):
                 ins.append([rand_custom_key(rng), rand_bytes(rng, rng.choice([0, 1, 3, 20]))])
         c.update(m="remove_insert", args={"remove": rm, "insert": ins})
     else:
-        c.update(m="set_public_key", args={"pk_of": rng.choice([own] + others) if rng.random() < 0.5 else own})
+        # own key, another key of the scheme, or (CombinedKey) a key of the other scheme
+        c.update(m="set_public_key", args={"pk_of": rng.choice([own] + others + signers_for(kt)) if rng.random() < 0.6 else own})
     return c, signer
 
 
@@ -653,11 +690,11 @@ def builder_calls(rng, hard=True):
     for _ in range(rng.randrange(0, 6)):
         m = rng.choice(["ip", "ip4", "ip6", "tcp4", "tcp6", "udp4", "udp6", "client_info", "add_value", "add_value", "add_value_rlp", "add_value_rlp"])
         if m == "ip":
-            calls.append({"m": m, "ip": rand_bytes(rng, rng.choice([4, 16]))})
+            calls.append({"m": m, "ip": rand_ip(rng, rng.choice([4, 16]))})
         elif m == "ip4":
-            calls.append({"m": m, "ip": rand_bytes(rng, 4)})
+            calls.append({"m": m, "ip": rand_ip(rng, 4)})
         elif m == "ip6":
-            calls.append({"m": m, "ip": rand_bytes(rng, 16)})
+            calls.append({"m": m, "ip": rand_ip(rng, 16)})
         elif m in ("tcp4", "tcp6", "udp4", "udp6"):
             calls.append({"m": m, "port": rng.choice([0, 1, 255, 256, 65535, rng.randrange(65536)])})
         elif m == "client_info":
@@ -703,7 +740,8 @@ def gen_hist(rng, n, length=(8, 30), kts=HIST_KTS, full_every=5, faults=True, ha
         ln = rng.randrange(*length)
         traced = kt.startswith("w") or kt == "var"
         for j in range(ln):
-            c, signer = rand_call(rng, kt, own, same, hard)
+            cross = [x for x in sigs if scheme_of(x) != scheme_of(own)]
+            c, signer = rand_call(rng, kt, own, same, hard, cross)
             if traced and faults and rng.random() < 0.15:
                 c["fault"] = rng.choice([1, 1, 1, 2])
             if (i * 31 + j) % full_every == 0:
@@ -712,8 +750,8 @@ def gen_hist(rng, n, length=(8, 30), kts=HIST_KTS, full_every=5, faults=True, ha
             # re-keying is expected to take effect on success; the generator follows the signer used most recently
             # (the specification tracks the real state; this only steers later choices)
             if signer != own and rng.random() < 0.5:
-                same = [s for s in same if s != signer] + [own]
                 own = signer
+                same = [x for x in sigs if scheme_of(x) == scheme_of(own) and x != own]
             if rng.random() < 0.12:
                 steps.append({"op": "clone", "h": "c", "from": "r"})
                 steps.append({"op": "compare", "a": "r", "b": "c"})
@@ -789,18 +827,18 @@ def gen_keys(rng, n_random):
 ALL_SIMPLE_CALLS = [
     ("insert", lambda rng: {"key": B("zz"), "val": {"ty": "bytes", "v": [1, 2, 3]}}),
     ("insert_raw_rlp", lambda rng: {"key": B("zy"), "raw": enc_str([9, 9])}),
-    ("set_ip", lambda rng: {"ip": rand_bytes(rng, 4)}),
-    ("set_ip", lambda rng: {"ip": rand_bytes(rng, 16)}),
+    ("set_ip", lambda rng: {"ip": rand_ip(rng, 4)}),
+    ("set_ip", lambda rng: {"ip": rand_ip(rng, 16)}),
     ("set_udp4", lambda rng: {"port": rng.randrange(65536)}),
     ("set_udp6", lambda rng: {"port": rng.randrange(65536)}),
     ("set_tcp4", lambda rng: {"port": rng.randrange(65536)}),
     ("set_tcp6", lambda rng: {"port": rng.randrange(65536)}),
     ("remove_udp4", lambda rng: {}), ("remove_udp6", lambda rng: {}), ("remove_tcp", lambda rng: {}), ("remove_tcp6", lambda rng: {}),
     ("set_client_info", lambda rng: {"name": B("geth"), "version": B("1.0"), "build": []}),
-    ("set_udp_socket", lambda rng: {"ip": rand_bytes(rng, 4), "port": 30303}),
-    ("set_udp_socket", lambda rng: {"ip": rand_bytes(rng, 16), "port": 30303}),
-    ("set_tcp_socket", lambda rng: {"ip": rand_bytes(rng, 4), "port": 80}),
-    ("set_tcp_socket", lambda rng: {"ip": rand_bytes(rng, 16), "port": 80}),
+    ("set_udp_socket", lambda rng: {"ip": rand_ip(rng, 4), "port": 30303}),
+    ("set_udp_socket", lambda rng: {"ip": rand_ip(rng, 16), "port": 30303}),
+    ("set_tcp_socket", lambda rng: {"ip": rand_ip(rng, 4), "port": 80}),
+    ("set_tcp_socket", lambda rng: {"ip": rand_ip(rng, 16), "port": 80}),
     ("remove_udp_socket", lambda rng: {}), ("remove_udp6_socket", lambda rng: {}),
     ("remove_tcp_socket", lambda rng: {}), ("remove_tcp6_socket", lambda rng: {}),
     ("remove_key", lambda rng: {"key": B("udp")}),
@@ -827,6 +865,10 @@ def gen_seq(rng, kts=("k256", "libsecp", "ed", "comb"), seqs=None, calls_per=Non
                     args["pk_of"] = own
                 steps.append({"op": "decode", "h": "r", "kt": kt, "input": {"rec": {"seq": seq, "pairs": pairs, "sig": {"by": own}}}, "tag": "seq_init"})
                 steps.append({"op": "call", "h": "r", "m": m, "args": args, "signer": own})
+            # public-key changes to every other key the key type knows (CombinedKey: also the other scheme)
+            for other in [x for x in signers_for(kt) if x != own]:
+                steps.append({"op": "decode", "h": "r", "kt": kt, "input": {"rec": {"seq": seq, "pairs": pairs, "sig": {"by": own}}}, "tag": "seq_init"})
+                steps.append({"op": "call", "h": "r", "m": "set_public_key", "args": {"pk_of": other}, "signer": own})
             # set_seq to every boundary from here
             for s2 in rng.sample(SEQ_BOUNDARY, 4):
                 steps.append({"op": "call", "h": "r", "m": "set_seq", "args": {"seq": s2}, "signer": own})
@@ -840,7 +882,7 @@ def gen_seq(rng, kts=("k256", "libsecp", "ed", "comb"), seqs=None, calls_per=Non
 
 
 # ---------------------------------------------------------------- C09: the 300-byte limit
-def gen_size(rng, kts=("k256", "libsecp", "ed", "comb"), sizes=range(262, 301), seqs=None, per_size=6):
+def gen_size(rng, kts=("k256", "libsecp", "ed", "comb"), sizes=range(262, 301), seqs=None, per_size=6, obs="core"):
     """pre-states of every size in `sizes` (filler value), sequence numbers whose encoding grows on increment,
     then one update whose result lands in 280..320"""
     sid = Sid("size")
@@ -848,12 +890,12 @@ def gen_size(rng, kts=("k256", "libsecp", "ed", "comb"), sizes=range(262, 301), 
     growers = [
         ("set_tcp4", lambda rng: {"port": rng.choice([1, 255, 256, 65535])}),
         ("set_udp6", lambda rng: {"port": rng.choice([0, 127, 128, 65535])}),
-        ("set_ip", lambda rng: {"ip": rand_bytes(rng, 4)}),
-        ("set_ip", lambda rng: {"ip": rand_bytes(rng, 16)}),
+        ("set_ip", lambda rng: {"ip": rand_ip(rng, 4)}),
+        ("set_ip", lambda rng: {"ip": rand_ip(rng, 16)}),
         ("insert", lambda rng: {"key": B("y"), "val": {"ty": "bytes", "v": rand_bytes(rng, rng.randrange(0, 40))}}),
         ("insert_raw_rlp", lambda rng: {"key": B("yy"), "raw": enc_str(rand_bytes(rng, rng.randrange(0, 30)))}),
-        ("set_udp_socket", lambda rng: {"ip": rand_bytes(rng, rng.choice([4, 16])), "port": rng.choice([1, 65535])}),
-        ("set_tcp_socket", lambda rng: {"ip": rand_bytes(rng, rng.choice([4, 16])), "port": rng.choice([1, 65535])}),
+        ("set_udp_socket", lambda rng: {"ip": rand_ip(rng, rng.choice([4, 16])), "port": rng.choice([1, 65535])}),
+        ("set_tcp_socket", lambda rng: {"ip": rand_ip(rng, rng.choice([4, 16])), "port": rng.choice([1, 65535])}),
         ("set_client_info", lambda rng: {"name": B("n" * rng.randrange(0, 12)), "version": B("1"), "build": rng.choice([[], [B("b")]])}),
         ("remove_insert", lambda rng: {"remove": [B("zpad")] if rng.random() < 0.3 else [], "insert": [[B("w"), rand_bytes(rng, rng.randrange(0, 30))]]}),
         ("remove_key", lambda rng: {"key": B("nothing")}),
@@ -878,7 +920,7 @@ def gen_size(rng, kts=("k256", "libsecp", "ed", "comb"), sizes=range(262, 301), 
                 if args.get("pk_of") == "OWN":
                     args["pk_of"] = own
                 steps.append({"op": "decode", "h": "r", "kt": kt, "input": {"rec": {"seq": seq, "pairs": pairs, "sig": {"by": own}}}, "tag": "size_%d" % size})
-                steps.append({"op": "call", "h": "r", "m": m, "args": args, "signer": own})
+                steps.append({"op": "call", "h": "r", "m": m, "args": args, "signer": own, "obs": obs})
             if len(steps) > 400:
                 out.append({"sid": sid(), "steps": steps})
                 steps = []
@@ -888,7 +930,7 @@ def gen_size(rng, kts=("k256", "libsecp", "ed", "comb"), sizes=range(262, 301), 
         steps = []
         for fill in range(150, 200):
             calls = [{"m": "seq", "seq": rng.choice(seqs)}, {"m": "add_value", "key": B("zpad"), "val": {"ty": "bytes", "v": [0xAA] * fill}}]
-            steps.append({"op": "build", "h": "b", "kt": kt, "signer": own, "calls": calls})
+            steps.append({"op": "build", "h": "b", "kt": kt, "signer": own, "calls": calls, "obs": obs})
         out.append({"sid": sid(), "steps": steps})
     # variable-length signatures: upper bound and size() only
     steps = []
@@ -937,7 +979,7 @@ def gen_typed(rng, ports, routes=("builder", "setter", "socket", "decode"), keys
         pairs = [[B("id"), enc_str(B("v4"))], [B(pk_key(own)), enc_str(KEYS[own]["pk"])]]
         for b, k in enumerate(six):
             if mask >> b & 1:
-                v = enc_str(rand_bytes(rng, 4)) if k == "ip" else enc_str(rand_bytes(rng, 16)) if k == "ip6" else port_raw(rng)
+                v = enc_str(rand_ip(rng, 4)) if k == "ip" else enc_str(rand_ip(rng, 16)) if k == "ip6" else port_raw(rng)
                 pairs.append([B(k), v])
         pairs.sort(key=lambda x: bytes(x[0]))
         steps.append({"op": "decode", "h": "d", "kt": kt, "obs": "full", "input": {"rec": {"seq": rand_seq(rng), "pairs": pairs, "sig": {"by": own}}}, "tag": "presence_%d" % mask})
@@ -946,10 +988,10 @@ def gen_typed(rng, ports, routes=("builder", "setter", "socket", "decode"), keys
     steps = [{"op": "build", "h": "r", "kt": kt, "signer": own, "calls": []}]
     ips = [[0, 0, 0, 0], [255] * 4, [127, 0, 0, 1], [0] * 16, [255] * 16, [0] * 15 + [1], [0x20, 1, 0xd, 0xb8] + [0] * 12]
     for _ in range(extra):
-        ips.append(rand_bytes(rng, rng.choice([4, 16])))
+        ips.append(rand_ip(rng, rng.choice([4, 16])))
     for ip in ips:
         steps.append({"op": "call", "h": "r", "m": "set_ip", "args": {"ip": ip}, "signer": own, "obs": "typed"})
-        steps.append({"op": "call", "h": "r", "m": rng.choice(["set_udp_socket", "set_tcp_socket"]), "args": {"ip": rand_bytes(rng, len(ip)), "port": rng.randrange(65536)}, "signer": own, "obs": "typed"})
+        steps.append({"op": "call", "h": "r", "m": rng.choice(["set_udp_socket", "set_tcp_socket"]), "args": {"ip": rand_ip(rng, len(ip)), "port": rng.randrange(65536)}, "signer": own, "obs": "typed"})
     for _ in range(extra):
         nm = "".join(rng.choice("abcXYZ019-._ /é") for _ in range(rng.randrange(0, 12)))
         steps.append({"op": "call", "h": "r", "m": "set_client_info", "signer": own, "obs": "full",
@@ -995,8 +1037,15 @@ def gen_eq(rng, n, kts=("k256", "libsecp", "ed", "comb")):
                  {"op": "clone", "h": "k", "from": "a"},
                  {"op": "call", "h": "k", "m": "set_seq", "args": {"seq": rec["seq"]}, "signer": other},
                  # an independently signed record with the same content
-                 {"op": "decode", "h": "i", "kt": kt, "input": recspec(rec), "tag": "eq_same_bytes"}]
-        hs = ["a", "c", "d", "s", "e1", "e2", "q", "k", "i"]
+                 {"op": "decode", "h": "i", "kt": kt, "input": recspec(rec), "tag": "eq_same_bytes"},
+                 # same sequence number, the pairs of `a` plus one pair that sorts last / minus its last custom pair
+                 {"op": "clone", "h": "p", "from": "a"},
+                 {"op": "call", "h": "p", "m": "insert", "args": {"key": B("zzzz"), "val": {"ty": "bytes", "v": [1]}}, "signer": own},
+                 {"op": "call", "h": "p", "m": "set_seq", "args": {"seq": rec["seq"]}, "signer": own},
+                 {"op": "clone", "h": "p2", "from": "a"},
+                 {"op": "call", "h": "p2", "m": "insert", "args": {"key": [], "val": {"ty": "bytes", "v": [2]}}, "signer": own},
+                 {"op": "call", "h": "p2", "m": "set_seq", "args": {"seq": rec["seq"]}, "signer": own}]
+        hs = ["a", "c", "d", "s", "e1", "e2", "q", "k", "i", "p", "p2"]
         for x in hs:
             for y in hs:
                 if x <= y:
